@@ -1,6 +1,6 @@
 //! spec -> impl: execute cases / behaviours emitted by TLC.
 use serde_json::Value;
-use sos_verif_harness::{summary::Summary, tree_world};
+use sos_verif_harness::{eventlog_world, summary::Summary, tree_world};
 use std::io::BufRead;
 
 fn read_lines(path: &str) -> Vec<Value> {
@@ -32,6 +32,30 @@ fn main() {
             for case in read_lines(&args[2]) {
                 tree_world::run_case(&case, &mut out, &known);
             }
+        }
+        "eventlog" => {
+            // replay eventlog <paths.ndjson> <kind map> <backends> <scratch> <prop>
+            let kind_map = args[3].clone();
+            let backends: Vec<&str> = args[4].split(',').collect();
+            let scratch = std::path::PathBuf::from(&args[5]);
+            let prop = args.get(6).cloned().unwrap_or_default();
+            let rt = tokio::runtime::Builder::new_multi_thread()
+                .worker_threads(2)
+                .enable_all()
+                .build()
+                .unwrap();
+            rt.block_on(async {
+                for path in read_lines(&args[2]) {
+                    if let Err(e) = eventlog_world::run_path(
+                        &path, &kind_map, &backends, &scratch, &mut out, &prop,
+                    )
+                    .await
+                    {
+                        eprintln!("harness error: {e:?}");
+                        std::process::exit(3);
+                    }
+                }
+            });
         }
         _ => {
             eprintln!("usage: replay <world> <input>");
